@@ -85,6 +85,13 @@ fn long_atoms() -> Vec<RV> {
     v.push(RV::Int(u64::MAX as i128));
     v.push(RV::Int(i64::MIN as i128));
     v.push(RV::Char('\u{10FFFF}'));
+    // integers that are (not) code points, floats beyond the i64 / f32 range
+    for x in [0xD7FFi128, 0xD800, 0xDFFF, 0xE000, 0x10FFFF, 0x110000, 1 << 32, 1 << 63] {
+        v.push(RV::Int(x));
+    }
+    for f in [1e19, -1e19, 1e20, 3.5e38, -3.5e38, 1e300, 9.223372036854775807e18] {
+        v.push(RV::Float(f));
+    }
     v
 }
 
